@@ -282,6 +282,71 @@ def _eliminate_returns(stmts, k):
     return out
 
 
+def _eliminate_returns_general(stmts, k, done_name):
+    """Return elimination for any control structure: the inlined body runs inside `while True: <body>; break` (marked so that
+    the CFG does not count it as a loop of the program); `return v` becomes k(v) + break, and a return inside an inner loop
+    additionally sets a flag that makes every enclosing inner loop break as well."""
+    used_flag = [False]
+
+    def has_ret(st):
+        return _contains_return(st)
+
+    def tx(block, depth):
+        out = []
+        for st in block:
+            if isinstance(st, ast.Return):
+                out.extend(k(st.value, st))
+                if depth > 0:
+                    used_flag[0] = True
+                    out.append(ast.copy_location(ast.Assign(targets=[ast.Name(id=done_name, ctx=ast.Store())],
+                                                            value=ast.Constant(value=True), type_comment=None), st))
+                out.append(ast.copy_location(ast.Break(), st))
+                return out   # statements after a return are dead
+            if not has_ret(st):
+                out.append(st)
+                continue
+            if isinstance(st, (ast.For, ast.While, ast.AsyncFor)):
+                st.body = tx(list(st.body), depth + 1)
+                st.orelse = tx(list(st.orelse), depth)
+                out.append(st)
+                chk = ast.If(test=ast.Name(id=done_name, ctx=ast.Load()), body=[ast.Break()], orelse=[])
+                out.append(ast.copy_location(chk, st))
+                used_flag[0] = True
+                continue
+            if isinstance(st, ast.If):
+                st.body = tx(list(st.body), depth) or [ast.copy_location(ast.Pass(), st)]
+                st.orelse = tx(list(st.orelse), depth)
+                out.append(st)
+                continue
+            if isinstance(st, (ast.With, ast.AsyncWith)):
+                st.body = tx(list(st.body), depth) or [ast.copy_location(ast.Pass(), st)]
+                out.append(st)
+                continue
+            if isinstance(st, ast.Try):
+                st.body = tx(list(st.body), depth) or [ast.copy_location(ast.Pass(), st)]
+                for h in st.handlers:
+                    h.body = tx(list(h.body), depth) or [ast.copy_location(ast.Pass(), st)]
+                st.orelse = tx(list(st.orelse), depth)
+                st.finalbody = tx(list(st.finalbody), depth)
+                out.append(st)
+                continue
+            raise _Bail(f'return inside {type(st).__name__}')
+        return out
+    body = tx(list(stmts), 0)
+    if not (body and isinstance(body[-1], ast.Break)):
+        body = body + k(None, None, fallthrough=True) + [ast.Break()]
+    loc = stmts[0] if stmts else None
+    wrapper = ast.While(test=ast.Constant(value=True), body=body, orelse=[])
+    wrapper._inline_wrapper = True  # noqa: SLF001
+    if loc is not None:
+        ast.copy_location(wrapper, loc)
+    pre = []
+    if used_flag[0]:
+        init = ast.Assign(targets=[ast.Name(id=done_name, ctx=ast.Store())], value=ast.Constant(value=False), type_comment=None)
+        pre.append(ast.copy_location(init, loc) if loc is not None else init)
+    return pre + [wrapper]
+
+
 def _assigned_names(fn) -> set:
     names = set()
     for n in _walk_no_nested(fn):
@@ -437,7 +502,16 @@ def _expand(fn, call, stmt, kind, is_method, caller_names):
 
     if kind == 'hoist':
         tmp = f'{fn.name.strip("_")}__result'
-    new = _eliminate_returns(body, k)
+    if kind == 'return':
+        # `return helper(..)`: a return in the helper body is a return of the caller - nothing to eliminate
+        new = list(body)
+        if not _always_returns(new):
+            new.append(ast.Return(value=ast.Constant(value=None)))
+    else:
+        try:
+            new = _eliminate_returns(clone(body), k)
+        except _Bail:
+            new = _eliminate_returns_general(body, k, f'{fn.name.strip("_")}__returned')
     for s in prefix + new:
         ast.fix_missing_locations(s)
     return prefix + new, tmp
@@ -500,6 +574,14 @@ def _inline_in_body(body, fn, is_target, is_method, caller_names, counter):
     i = 0
     while i < len(body):
         st = body[i]
+        # `if a and b and helper(x): BODY` (no else): the helper runs exactly when a and b hold, so this is
+        # `if a and b: if helper(x): BODY` - which brings the call into a position where it can be expanded
+        if isinstance(st, ast.If) and not st.orelse and isinstance(st.test, ast.BoolOp) and isinstance(st.test.op, ast.And) \
+                and isinstance(st.test.values[-1], ast.Call) and is_target(st.test.values[-1]):
+            inner = ast.copy_location(ast.If(test=st.test.values[-1], body=st.body, orelse=[]), st)
+            rest = st.test.values[:-1]
+            st.test = rest[0] if len(rest) == 1 else ast.copy_location(ast.BoolOp(op=ast.And(), values=rest), st.test)
+            st.body = [inner]
         call, kind = _call_position(st, is_target)
         if call is not None:
             try:
@@ -527,6 +609,67 @@ def _inline_in_body(body, fn, is_target, is_method, caller_names, counter):
             for c in getattr(st, 'cases', []) or []:
                 _inline_in_body(c.body, fn, is_target, is_method, caller_names, counter)
         i += 1
+
+
+def _single_return_expr(fn):
+    body = fn.body
+    if body and isinstance(body[0], ast.Expr) and isinstance(body[0].value, ast.Constant) and isinstance(body[0].value.value, str):
+        body = body[1:]
+    if len(body) == 1 and isinstance(body[0], ast.Return) and body[0].value is not None:
+        e = body[0].value
+        if not any(isinstance(x, (ast.NamedExpr, ast.Lambda, ast.Yield, ast.YieldFrom, ast.Await)) for x in ast.walk(e)):
+            return e
+    return None
+
+
+def _inline_expression(fn, expr, is_target, is_method, callers, counter):
+    """helper(args) -> the helper's single return expression with the parameters replaced, at every call site where each
+    argument is pure (name / attribute chain / constant) or its parameter is used at most once."""
+    params = [a.arg for a in fn.args.args]
+    plist = params[1:] if is_method else params
+    defaults = dict(zip(params[len(params) - len(fn.args.defaults):], fn.args.defaults))
+    uses = {p: sum(1 for x in ast.walk(expr) if isinstance(x, ast.Name) and x.id == p) for p in plist}
+    bound_in_expr = {t.id for x in ast.walk(expr) if isinstance(x, ast.comprehension) for t in ast.walk(x.target)
+                     if isinstance(t, ast.Name)}
+
+    class T(ast.NodeTransformer):
+        def visit_Call(self, node):  # noqa: N802
+            self.generic_visit(node)
+            if not is_target(node):
+                return node
+            if any(isinstance(a, ast.Starred) for a in node.args) or any(k.arg is None for k in node.keywords) or \
+                    len(node.args) > len(plist):
+                counter['bailed'] += 1
+                return node
+            actual = dict(zip(plist, node.args))
+            for kw in node.keywords:
+                if kw.arg not in plist or kw.arg in actual:
+                    counter['bailed'] += 1
+                    return node
+                actual[kw.arg] = kw.value
+            for p_ in plist:
+                if p_ not in actual:
+                    if p_ not in defaults:
+                        counter['bailed'] += 1
+                        return node
+                    actual[p_] = defaults[p_]
+            for p_, a in actual.items():
+                if not (_pure(a) or uses[p_] <= 1):
+                    counter['bailed'] += 1
+                    return node
+                if {x.id for x in ast.walk(a) if isinstance(x, ast.Name)} & bound_in_expr:
+                    counter['bailed'] += 1
+                    return node
+            mapping = dict(actual)
+            if is_method and params[0] != 'self':
+                mapping[params[0]] = 'self'
+            counter['inlined'] += 1
+            return ast.copy_location(_Subst(mapping).visit(clone(expr)), node)
+    for caller in callers:
+        if caller is fn:
+            continue
+        caller.body = [T().visit(st) for st in caller.body]
+        ast.fix_missing_locations(caller)
 
 
 def inline_new_helpers(repo, inv: dict, log: list) -> bool:
@@ -567,6 +710,9 @@ def inline_new_helpers(repo, inv: dict, log: list) -> bool:
                     def is_target(e, name=fn.name):
                         return isinstance(e.func, ast.Name) and e.func.id == name
                 counter = {'inlined': 0, 'bailed': 0}
+                single = _single_return_expr(fn)
+                if single is not None:
+                    _inline_expression(fn, single, is_target, is_method, callers, counter)
                 for caller in callers:
                     if caller is fn:
                         continue
